@@ -771,8 +771,8 @@ func OrExpr(query *Query, current Map, expr *sqlparser.OrExpr, opts ...ExprOptio
 }
 
 func ComparisonExpr(query *Query, current Map, expr *sqlparser.ComparisonExpr, opts ...ExprOption) (bool, error) {
-	current["<-"] = query.data
-	defer delete(current, "<-")
+	// Backward Navigation
+	current = navigable(query, current)
 	left, err := Expr(query, current, expr.Left, opts...)
 	if err != nil {
 		return false, err
@@ -1264,8 +1264,8 @@ func SelectExpr(query *Query, current Map, expr *sqlparser.SelectExprs, opts ...
 					if _, isCte := value.(CteEvaluation); isCte {
 						continue
 					}
-					// nor is the backward-navigation entry a subquery leaves on the row while the query runs:
-					// it points back at the document, and a row carrying it cannot be printed or compared
+					// nor is the backward-navigation entry that the rows of an EXISTS subquery carry: it points
+					// back at the enclosing document
 					if key == "<-" {
 						continue
 					}
@@ -1330,14 +1330,21 @@ func SelectExpr(query *Query, current Map, expr *sqlparser.SelectExprs, opts ...
 	return data, nil
 }
 
+// navigable returns a copy of the row that carries the backward navigation entry. The row itself may be
+// an object of the caller's document: it is not given the entry, which refers back to the document (a
+// cycle: such a row cannot be printed, hashed or marshalled) and would stay on it when the query fails
+func navigable(query *Query, current Map) Map {
+	scope := make(Map, len(current)+1)
+	for key, value := range current {
+		scope[key] = value
+	}
+	scope["<-"] = query.data
+	return scope
+}
+
 func SubqueryExpr(query *Query, current Map, expr *sqlparser.Subquery, opts ...ExprOption) (any, error) {
 	// Backward Navigation
-	current["<-"] = query.data
-	query.postProcessors = append(query.postProcessors, func() error {
-		delete(current, "<-")
-		return nil
-	})
-	subQuery, err := Prepare(current, expr.Select, query.options)
+	subQuery, err := Prepare(navigable(query, current), expr.Select, query.options)
 	if err != nil {
 		return nil, err
 	}
@@ -1379,12 +1386,8 @@ func CaseExpr(query *Query, current Map, expr *sqlparser.CaseExpr, opts ...ExprO
 // it finds the first value
 func ExistExpr(query *Query, current Map, expr *sqlparser.ExistsExpr, opts ...ExprOption) (bool, error) {
 	// Backward Navigation
-	current["<-"] = query.data
-	query.postProcessors = append(query.postProcessors, func() error {
-		delete(current, "<-")
-		return nil
-	})
-	q, err := Prepare(current, expr.Subquery.Select, query.options)
+	scope := navigable(query, current)
+	q, err := Prepare(scope, expr.Subquery.Select, query.options)
 	if err != nil {
 		return false, err
 	}
@@ -1396,11 +1399,11 @@ func ExistExpr(query *Query, current Map, expr *sqlparser.ExistsExpr, opts ...Ex
 		if !ok {
 			return false, INVALID_TYPE.Extend(fmt.Sprintf("failed to build `EXIST` expression. expected an object but found %T", item))
 		}
-		merged := make(Map, len(item)+len(current))
+		merged := make(Map, len(item)+len(scope))
 		for key, value := range item {
 			merged[key] = value
 		}
-		for key, value := range current {
+		for key, value := range scope {
 			merged[key] = value
 		}
 		from[i] = merged
@@ -1862,7 +1865,7 @@ func (query *Query) exec() (result any, err error) {
 				if err != nil {
 					return nil, err
 				}
-				// what the copy deferred (removal of navigation entries, ASYNC calls still running) is this query's to finish
+				// what the copy deferred (resolution of ASYNC columns, ASYNC calls still running) is this query's to finish
 				query.postProcessors = append(query.postProcessors, copy.postProcessors...)
 				query.wg.Add(1)
 				go func() {
@@ -1930,8 +1933,8 @@ func (query *Query) execAndPostProcess() (result any, err error) {
 		return nil, err
 	}
 	query.wg.Wait()
-	// a post processor may register further ones (AWAIT evaluates its argument here, and a subquery in it
-	// defers the removal of its navigation entry): the list is walked to its current end
+	// a post processor may register further ones (AWAIT evaluates its argument here, and an ASYNC column
+	// in it defers its resolution): the list is walked to its current end
 	for i := 0; i < len(query.postProcessors); i++ {
 		err := query.postProcessors[i]()
 		if err != nil {
